@@ -507,11 +507,19 @@ type c16CSVWriter struct {
 	failAt   int
 	flushErr bool
 	flushes  int
+	// retains: the writer keeps the very slices it is handed (a collecting writer, as a caller may well write
+	// one: the records delivered must not alias one another) instead of copying them — only when the caller did
+	// not ask for record reuse (with it, handing over the reader's own record is what was asked for)
+	retains bool
 }
 
 func (w *c16CSVWriter) Write(rec []string) error {
 	if w.failAt >= 0 && len(w.recs) == w.failAt {
 		return errC16CwWrite
+	}
+	if w.retains {
+		w.recs = append(w.recs, rec)
+		return nil
 	}
 	w.recs = append(w.recs, append([]string{}, rec...))
 	return nil
@@ -568,6 +576,40 @@ func c16Call(f func() error) (res string) {
 		}
 	}()
 	return c16Result(f())
+}
+
+// c16ReadBackFaithful: reading back what a CSV writer wrote for these records gives the same records (not so for
+// a record that is one empty field — written as an empty line — nor for fields holding a carriage return).
+func c16ReadBackFaithful(recs [][]string) bool {
+	for _, r := range recs {
+		if len(r) == 1 && r[0] == "" {
+			return false
+		}
+		for _, f := range r {
+			if strings.ContainsRune(f, '\r') {
+				return false
+			}
+		}
+	}
+	return true
+}
+
+// c16Recomma reads CSV text written with the separator `from` and writes it again with the standard one.
+func c16Recomma(sink []byte, from rune, crlf bool) []byte {
+	r := csv.NewReader(bytes.NewReader(sink))
+	r.Comma = from
+	r.FieldsPerRecord = -1
+	recs, err := r.ReadAll()
+	if err != nil {
+		return sink
+	}
+	var buf bytes.Buffer
+	w := csv.NewWriter(&buf)
+	w.UseCRLF = crlf
+	if w.WriteAll(recs) != nil {
+		return sink
+	}
+	return buf.Bytes()
 }
 
 func c16Reparse(sink []byte, wc rune) string {
@@ -782,7 +824,8 @@ func c16ExecK(in []string) []string {
 	sink := &c16Sink{fails: fails}
 	sinkGot := func() []byte { return sink.got }
 	dstClosed := func() int { return sink.closed }
-	cw := &c16CSVWriter{failAt: failAt, flushErr: fails}
+	ownWriterComma := false
+	cw := &c16CSVWriter{failAt: failAt, flushErr: fails, retains: !o.reuse && bits>>21%2 == 1}
 	var data interface{}
 	var tab *[][]string
 	var ntab *c16Table
@@ -791,7 +834,14 @@ func c16ExecK(in []string) []string {
 	haveSink, haveCw := false, false
 	switch caps {
 	case "csvptr+csviface":
-		data, haveSink = csv.NewWriter(c16Writer{sink}), true
+		w := csv.NewWriter(c16Writer{sink})
+		if o.wc == 0 && bits>>20%2 == 1 && c16ReadBackFaithful(r1) {
+			// the caller's own writer object comes with the caller's separator; no separator option is given:
+			// it keeps it (the sink is brought back to the standard separator before it is judged)
+			w.Comma = ';'
+			ownWriterComma = true
+		}
+		data, haveSink = w, true
 	case "csviface":
 		data, haveCw = cw, true
 	case "csviface+xfer":
@@ -917,13 +967,20 @@ func c16ExecK(in []string) []string {
 	l, c := 0, 0
 	switch {
 	case haveSink:
-		sinkF = proto.B(string(sinkGot()))
+		got := sinkGot()
+		if ownWriterComma {
+			got = c16Recomma(got, ';', o.crlf)
+		}
+		sinkF = proto.B(string(got))
 	case pb != nil:
 		sinkF = proto.B(string(*pb))
 	case ps != nil:
 		sinkF = proto.B(*ps)
 	case haveCw:
 		recsF = c16EncRecs(cw.recs)
+		if cw.retains {
+			alias = c16Alias(cw.recs)
+		}
 	case tab != nil:
 		recsF, alias, l, c = c16EncRecs(*tab), c16Alias(*tab), len(*tab), cap(*tab)
 		if m := c16AliasByMutation(*tab); m != alias {
@@ -953,10 +1010,17 @@ func c16ExecP(in []string) []string {
 	}
 	ks := c16Ints(in[5], 4)
 
-	r1, t1 := c16Oracle(&c16Script{data: text, failAfter: failAfter}, &o)
+	bits := c16Bits(in)
+	// the caller's own reader object comes with the caller's separator; no separator option is given: it keeps it
+	// (and the standard parse of the input is the parse with that separator)
+	ownReaderComma := caps == "csvptr+csviface" && o.rc == 0 && bits>>20%2 == 1
+	oEff := o
+	if ownReaderComma {
+		oEff.rc = ';'
+	}
+	r1, t1 := c16Oracle(&c16Script{data: text, failAfter: failAfter}, &oEff)
 	r2, t2 := c16Oracle(&c16Script{data: text, failAfter: failAfter}, nil)
 
-	bits := c16Bits(in)
 	once := func() (res, sinkF, reparse, misc string) {
 		table := c16DecRecs(in[3])
 		script := &c16Script{data: text, failAfter: failAfter}
@@ -986,7 +1050,11 @@ func c16ExecP(in []string) []string {
 		var data interface{}
 		switch caps {
 		case "csvptr+csviface":
-			data = csv.NewReader(pure())
+			r := csv.NewReader(pure())
+			if ownReaderComma {
+				r.Comma = ';'
+			}
+			data = r
 		case "csviface":
 			data = ownReader()
 		case "csviface+xfer":
